@@ -330,3 +330,84 @@ def replay(ctx, payload):
             if " f3 " in l:
                 print("implementation now:", l)
     return 1
+
+
+# --------------------------------------------------------------------------------------------
+# C17 (Writer half): resume after a produce response cut at byte k.  Called by checks/c17.py.
+WCUT_PREFIX = "C17 writer resume after a cut produce response: "
+WCUT_GO = {
+    "HANG": "a WriteMessages call or Close did not return within the watchdog",
+    "PANIC": "the Writer / Transport panicked",
+    "ANOMALY:same-connection-after-cut": "the request after a cut response did not go out on a new connection",
+    "ANOMALY:retried-request-differs": "a retried produce request does not carry the same records as the first attempt",
+    "ANOMALY:gave-up-early": "a batch was reported failed with a retriable error before its attempts were exhausted",
+    "ANOMALY:success-without-ack": "a message was reported as written although no produce request for it was both applied "
+                                   "and completely answered (the only request that reached the broker had its answer cut)",
+}
+WCUT_PRED = {
+    "C01_nil_holds": "WriteMessages returned nil but a message has no applied and completely answered produce request / is not in the broker log",
+    "C01_we_holds": "WriteErrors entries do not match the outcome of the messages' produce requests (nil entry without acknowledgement, or error without exhausting the attempts)",
+    "C01_compl_holds": "Completion reported a message twice or with an outcome other than its last produce request's",
+    "C01_compl_total_holds": "after Close an accepted message never reached the Completion callback",
+    "C01_no_foreign_holds": "a message was appended to a partition the balancer did not choose",
+    "C01_dups_holds": "copies in the log do not match the applied requests, a batch was re-sent with different records / without a lost answer / beyond MaxAttempts",
+    "C07_holds": "per-partition submission order is not preserved across the retries",
+    "C08_limits_holds": "a retried request exceeds the batch limits or mixes partitions",
+    "rejected_sends_nothing_holds": "a message of a rejected call was sent",
+    "verdict_holds": "validation verdict differs",
+    "C09_after_close": "a call after Close did not fail with io.ErrClosedPipe",
+}
+
+
+def writer_cut_cases(ctx):
+    """The real kafka.Writer on the real kafka.Transport over the wire-level fake broker of
+    harness/cmd/writer (wire.go / wcut.go); the only fault: a produce response delivered up to
+    byte k, then the connection lost (request applied or not).  Judged by the harness's own
+    checks, by the extracted history predicates of Model/Writer.v (a cut answer is a lost
+    acknowledgement) and, for deterministic scenarios, by a run of the extracted Writer model.
+    Returns dict(evaluations, distinct_nontrivial, hist, failures, samples)."""
+    gobin = L.go_build("writer")
+    model = L.ocaml_build("writer")
+    n = ctx.scale(300, 6000)
+    rc, out, err, dt = L.sh([gobin, "-seed", str(ctx.seed), "-wcut", str(n)], timeout=1200)
+    if rc != 0:
+        raise L.Fail("correspondence", "harness cmd/writer -wcut crashed or timed out", (out[-1000:] + err[-2000:]))
+    cases = L.parse_cases(out)
+    for c in cases:
+        c["line"] = c["id"] + " " + c["op"] + " " + c["args"]
+    res = L.run_model(model, "\n".join(c["line"] for c in cases) + "\n", timeout=1200)
+    failures, seen, hist, dn = [], set(), {}, set()
+    for c in cases:
+        c["model"] = res.get(c["id"])
+        for t in (c["feats"].split(",") if c["feats"] else [""]):
+            hist["wcut:" + t] = hist.get("wcut:" + t, 0) + 1
+        if "cuts=0" not in c["feats"].split(","):
+            dn.add(hashlib.sha1(c["args"].encode()).hexdigest())
+        found = []   # (layer, what)
+        go, m = c["go"], c["model"]
+        if go != "ok":
+            key = next((k for k in WCUT_GO if go.startswith(k)), None)
+            found.append(("property", WCUT_GO.get(key, "the harness reported " + go[:120])))
+        if m is None or m.startswith("EXN:") or m in ("BADCASE", "? BADLINE"):
+            found.append(("correspondence", "the model driver could not evaluate the history: " + str(m)[:200]))
+        elif m != "ok":
+            for nm in (m[5:].split(",") if m.startswith("FAIL:") else [m]):
+                if nm in WCUT_PRED:
+                    found.append(("property", WCUT_PRED[nm]))
+                elif nm.startswith("det:"):
+                    found.append(("correspondence", "deterministic scenario: the run of the extracted Writer model (cut answer = lost "
+                                  "acknowledgement) differs from the implementation (" + nm.split("@")[0] + ")"))
+                else:
+                    found.append(("correspondence", "history not interpretable / broker inconsistent (" + nm + ")"))
+        for layer, what in found:
+            if (layer, what) in seen:
+                continue
+            seen.add((layer, what))
+            payload = dict(case=c["line"], go=go, model=m, feats=c["feats"], seed=ctx.seed,
+                           replay="build/bin/writer -seed %d -wcut %d | grep '^%s ' ; echo '<case>' | build/bin/writer_model" % (ctx.seed, n, c["id"]))
+            failures.append(dict(layer=layer, key=None, what=WCUT_PREFIX + what,
+                                 detail=json.dumps(dict(case=c["line"][:6000], go=go[:300], model=str(m)[:600], feats=c["feats"])),
+                                 input=payload if layer == "property" else None))
+    samples = [c["line"][:500] + " | " + c["go"][:60] + " | " + c["feats"][:160] for c in cases[:3]]
+    return dict(evaluations=len(cases), distinct_nontrivial=len(dn), hist=hist, failures=failures, samples=samples,
+                extra=dict(wcut_go_run_s=round(dt, 1)))
